@@ -19,6 +19,12 @@ func chainsimExec(r *Run) {
 	h.DrawCfg(cap)
 	for i := 0; h.StepOp(i); i++ {
 	}
+	// now and then a reorganisation whose size sits on a boundary (64 .. 1025 promoted headers)
+	den := 150
+	if r.Tier == "thorough" {
+		den = 40
+	}
+	h.MaybeBigReorg(den)
 	// end of history: final restart + full check (durability of what was acknowledged)
 	if r.T.Chance(1, 3, "final-restart") {
 		h.Restart()
